@@ -310,9 +310,10 @@ func runJob(spec *JobSpec, tier string, extraOverlay map[string][]byte, concrete
 		fmt.Sscan(v, &n)
 		budget = time.Duration(n) * time.Second
 	}
+	var firstViol time.Time
 	progDone := make(chan struct{})
 	go func() {
-		tk := time.NewTicker(15 * time.Second)
+		tk := time.NewTicker(5 * time.Second)
 		defer tk.Stop()
 		for {
 			select {
@@ -320,7 +321,17 @@ func runJob(spec *JobSpec, tier string, extraOverlay map[string][]byte, concrete
 				return
 			case <-tk.C:
 				mu.Lock()
-				fmt.Fprintf(os.Stderr, "    .. %s: %ds paths=%d queue=%d busy=%d violations=%d ends=%v\n", spec.Name, int(time.Since(t1).Seconds()), res.Paths, len(work), busy, len(res.Violations), res.Ends)
+				if int(time.Since(t1).Seconds())%15 < 5 {
+					fmt.Fprintf(os.Stderr, "    .. %s: %ds paths=%d queue=%d busy=%d violations=%d ends=%v\n", spec.Name, int(time.Since(t1).Seconds()), res.Paths, len(work), busy, len(res.Violations), res.Ends)
+				}
+				// once a violation is in hand, look for further distinct ones only briefly
+				if len(res.Violations) > 0 && firstViol.IsZero() {
+					firstViol = time.Now()
+				}
+				if !firstViol.IsZero() && time.Since(firstViol) > 20*time.Second && !stop {
+					stop = true
+					res.Truncated = true
+				}
 				if time.Since(t1) > budget && !stop {
 					stop = true
 					res.Truncated = true
